@@ -641,7 +641,10 @@ def run_differential(A, B, domains, pairs, mode="value", compare_entities=True, 
     vb = {b: observe.output_view(cb, b) for _, b in pairs}
     ea, eb = user_entities(ca.bp), user_entities(cb.bp)
     mism = []
-    if compare_entities and set(ea) != set(eb):
+    if compare_entities == "P":      # B is a sub-program of A: every entity of B must be in A
+        if set(eb) - set(ea):
+            mism.append(("entities", None, [], sorted(set(eb) - set(ea))))
+    elif compare_entities and set(ea) != set(eb):
         mism.append(("entities", None, sorted(set(ea) - set(eb)), sorted(set(eb) - set(ea))))
     free = [i for i in domains]
     vals = grid(domains, free)
@@ -699,12 +702,12 @@ def run_differential(A, B, domains, pairs, mode="value", compare_entities=True, 
     return res
 
 
-def run_product_bfs(A, B, inputs, domains, outputs, entities=None, cap=3000):
+def run_product_bfs(A, B, inputs, domains, outputs, entities=None, cap=3000, pairs=None, subset=False):
     """Lock-step BFS over the product of two circuits (two builds of one source): after every
     event both are settled and their named outputs / entity conditions must be equal."""
     try:
-        ca, ia, sa_ = compile_with_inputs(A["stmts"], inputs, A["opts"])
-        cb, ib, sb_ = compile_with_inputs(B["stmts"], inputs, B["opts"])
+        ca, ia, sa_ = compile_with_inputs(A["stmts"], A.get("inputs", inputs), A["opts"])
+        cb, ib, sb_ = compile_with_inputs(B["stmts"], B.get("inputs", inputs), B["opts"])
     except harness.Rejected as ex:
         return {"status": "rejected", "detail": str(ex)[:300], "outcome": "rejected"}
     if ia.problems or ib.problems or sa_ or sb_:
@@ -713,7 +716,7 @@ def run_product_bfs(A, B, inputs, domains, outputs, entities=None, cap=3000):
     vb = {o: observe.output_view(cb, o) for o in outputs}
     ea, eb = user_entities(ca.bp), user_entities(cb.bp)
     bad = []
-    if set(ea) != set(eb):
+    if (set(eb) - set(ea)) if subset else (set(ea) != set(eb)):
         bad.append(([], "entities", (sorted(set(ea) - set(eb)), sorted(set(eb) - set(ea)))))
     common = sorted(set(ea) & set(eb))
     ha, hb = 2 * len(ca.combs) + 12, 2 * len(cb.combs) + 12
@@ -724,8 +727,8 @@ def run_product_bfs(A, B, inputs, domains, outputs, entities=None, cap=3000):
         for k in common:
             o[str(k)] = c.entity_condition(st, emap[k])[0]
         return o
-    ia.set(val0)
-    ib.set(val0)
+    ia.set(val0, partial=True)
+    ib.set(val0, partial=True)
     try:
         sa, ka = ca.settle(ca.initial_state(), ha)
         sb, kb = cb.settle(cb.initial_state(), hb)
@@ -751,8 +754,8 @@ def run_product_bfs(A, B, inputs, domains, outputs, entities=None, cap=3000):
                     continue
                 nv = dict(val)
                 nv[x] = v
-                ia.set(nv)
-                ib.set(nv)
+                ia.set(nv, partial=True)
+                ib.set(nv, partial=True)
                 try:
                     sa, ka = ca.settle(uncanon_state(csa), ha)
                     sb, kb = cb.settle(uncanon_state(csb), hb)
